@@ -136,8 +136,11 @@ fn summary(x: &HttpRes) -> (Option<String>, Option<String>) {
 
 pub fn check(r: &mut Report, ss: &[(&'static str, Vec<u8>, Vec<u8>)], refs: &[(Option<String>, Option<String>)], h: &Hist) {
     let (name, req, resp) = &ss[h.stream];
-    let syn = pkt::build(&Spec { src: 1, sport: 40000, dst: 2, dport: 80, flags: SYN, seq: h.client_isn, payload: req[..h.syn_bytes.min(req.len())].to_vec(), ..Spec::default() });
-    let synack = pkt::build(&Spec { src: 2, sport: 80, dst: 1, dport: 40000, flags: SYN | ACK, seq: h.server_isn, ack: h.client_isn.wrapping_add(1), ..Spec::default() });
+    // every third history opens with an ECN-setup handshake (RFC 3168: SYN+ECE+CWR answered by SYN+ACK+ECE), as hosts with
+    // ECN switched on send it: further flag bits on the handshake segments change nothing about where the streams begin
+    let ecn = (h.segs.iter().map(|s| s.1 + 2 * s.2).sum::<usize>() + h.segs.len()) % 3 == 0;
+    let syn = pkt::build(&Spec { src: 1, sport: 40000, dst: 2, dport: 80, flags: SYN | if ecn { 0xc0 } else { 0 }, seq: h.client_isn, payload: req[..h.syn_bytes.min(req.len())].to_vec(), ..Spec::default() });
+    let synack = pkt::build(&Spec { src: 2, sport: 80, dst: 1, dport: 40000, flags: SYN | ACK | if ecn { 0x40 } else { 0 }, seq: h.server_isn, ack: h.client_isn.wrapping_add(1), ..Spec::default() });
     let frames: Vec<Vec<u8>> = h.segs.iter().map(|s| frame_for(h, req, resp, s)).collect();
     // every other history is captured on an Ethernet link that shows the padding of short frames and the frame check
     // sequence behind the IP packet: bytes that are not part of any segment
